@@ -194,6 +194,9 @@ pub fn install_panic_hook() {
             .location()
             .map(|l| l.file().to_string())
             .unwrap_or_default();
+        if std::env::var("JBKV_QUIET_PANICS").is_err() {
+            eprintln!("[panic] {loc}: {}", msg.lines().next().unwrap_or(""));
+        }
         let mut g = LAST_PANIC.lock().unwrap_or_else(|e| e.into_inner());
         // keep the first panic of a case: later ones are usually consequences
         if g.is_none() {
@@ -868,6 +871,7 @@ pub fn run_workers<P: Property>(tier: Tier, seed: u64, summary: &mut RunSummary)
         .map(|w| {
             Some(
                 std::process::Command::new(&exe)
+                    .env("JBKV_QUIET_PANICS", "1")
                     .arg("worker")
                     .arg(P::ID)
                     .arg(tier.name())
